@@ -24,8 +24,9 @@ META = {
 def run(ctx):
     import wrapper_corr
 
-    runner_corr.run_cluster(ctx, "C08")
+    # the wrapper level first (seconds): once the trace conformance is broken, the runner cluster spends the remaining budget on its searches
     wrapper_corr.run_wrapper_level(ctx, "C08")
+    runner_corr.run_cluster(ctx, "C08")
 
 
 def replay(ctx, case):
